@@ -32,7 +32,10 @@ pub fn remove_oscat_comment(source: String) -> String {
                     if c == '\n' {
                         output.push('\n');
                     } else {
-                        output.push(' ');
+                        // One space per byte so that byte offsets do not change
+                        for _ in 0..c.len_utf8() {
+                            output.push(' ');
+                        }
                     }
                 }
 
